@@ -1097,7 +1097,7 @@ def noise_variances(
     S_th = 4 * kB * T * BW_el * R_L   # thermal noise variance, in [V^2]
     S_sh_i = 2 * e * mu * BW_el * R_L   # shot noise variance, in [V^2]
     
-    S = (S_th + S_sig_ase_i + S_ase_ase + S_sh_i) * nf_el   # variance of ON and OFF slots
+    S = S_th * nf_el + S_sig_ase_i + S_ase_ase + S_sh_i   # variance of ON and OFF slots (the electrical noise figure applies to the thermal term, as in theory_BER and PD)
     return S
 
 def optimum_threshold(mu0,mu1,S0,S1, modulation: Literal['ook', 'ppm'], M=None):
